@@ -35,6 +35,26 @@ func (w *tcpWriter) TsigStatus() error         { return nil }
 func (w *tcpWriter) TsigTimersOnly(bool)       {}
 func (w *tcpWriter) Hijack()                   {}
 
+// udpWriter is a response writer whose remote address is a *net.UDPAddr: the handler fits the
+// reply into the size the client advertised.
+type udpWriter struct {
+	tcpWriter
+}
+
+func (w *udpWriter) RemoteAddr() net.Addr { return &net.UDPAddr{IP: w.ip, Port: 40212} }
+
+// UdpObs is what one backend wrote for a query received over UDP.
+type UdpObs struct {
+	Limit   int    `json:"limit"` // max(512, advertised EDNS size); 512 without EDNS
+	Written bool   `json:"written"`
+	Len     int    `json:"len"` // length of the message packed the way the server packs it
+	TC      bool   `json:"tc"`
+	NRecs   int    `json:"nrecs"`     // records in answer + authority + additional (without OPT)
+	NTcp    int    `json:"nrecs_tcp"` // the same for the reply over TCP (nothing dropped)
+	Panic   string `json:"panic"`
+	PackErr bool   `json:"packerr"`
+}
+
 // RRp is the projection of one resource record.
 type RRp struct {
 	Owner []int `json:"owner"` // wire form, case as served
@@ -87,6 +107,8 @@ type Query struct {
 	Version int   `json:"version"`
 	Class_  string `json:"qclass"` // generator class of the query
 	Obs     map[string]*Obs `json:"obs"`
+	Udp     bool   `json:"udp"` // also ask over UDP and observe the size of what is written
+	UdpObs  map[string]*UdpObs `json:"udpobs,omitempty"`
 }
 
 // Servers are the three real servers over one data file.
@@ -241,6 +263,10 @@ func (s *Servers) Ask(q *Query) error {
 		q.Version = int(o.Version())
 	}
 	q.Obs = map[string]*Obs{}
+	q.UdpObs = nil
+	if q.Udp {
+		q.UdpObs = map[string]*UdpObs{}
+	}
 	ip := net.ParseIP(q.Client)
 	for _, be := range Backends {
 		h := s.H[be]
@@ -300,6 +326,48 @@ func (s *Servers) Ask(q *Query) error {
 				o.Reply = project(w.msg, w.n)
 			}
 		}()
+		if q.Udp {
+			u := &UdpObs{Limit: 512}
+			q.UdpObs[be] = u
+			if o.Reply != nil {
+				u.NTcp = len(o.Reply.An) + len(o.Reply.Ns) + len(o.Reply.Ex)
+			}
+			func() {
+				var m dns.Msg
+				m.Unpack(append([]byte{}, wire...))
+				if opt := m.IsEdns0(); opt != nil && int(opt.UDPSize()) > 512 {
+					u.Limit = int(opt.UDPSize())
+				}
+				w := &udpWriter{tcpWriter{ip: ip}}
+				rec := dnstest.NewRecorder(w)
+				defer func() {
+					if e := recover(); e != nil {
+						u.Panic = fmt.Sprint(e)
+						if u.Panic == "" {
+							u.Panic = "panic"
+						}
+					}
+				}()
+				h.ServeDNSWithRCODE(dnsserver.WithMaxAnswer(context.Background(), q.Max), rec, &m)
+				if w.msg != nil {
+					u.Written = true
+					u.TC = w.msg.Truncated
+					for _, sec := range [][]dns.RR{w.msg.Answer, w.msg.Ns, w.msg.Extra} {
+						for _, rr := range sec {
+							if _, isopt := rr.(*dns.OPT); !isopt {
+								u.NRecs++
+							}
+						}
+					}
+					buf, err := w.msg.Pack() // honours the Compress flag the handler set, as the server's writer does
+					if err != nil {
+						u.PackErr = true
+					} else {
+						u.Len = len(buf)
+					}
+				}
+			}()
+		}
 	}
 	return nil
 }
